@@ -158,6 +158,8 @@ REAL(int, gettimeofday, struct timeval *, void *)
 REAL(int, getrusage, int, struct rusage *)
 REAL(long, sysconf, int)
 REAL(int, get_nprocs, void)
+REAL(int, sched_getaffinity, pid_t, size_t, cpu_set_t *)
+REAL(int, pthread_getaffinity_np, pthread_t, size_t, cpu_set_t *)
 REAL(int, nanosleep, const struct timespec *, struct timespec *)
 REAL(int, usleep, useconds_t)
 
@@ -610,6 +612,29 @@ int get_nprocs(void)
   if (in_sim())
     return g.cores;
   return real_get_nprocs()();
+}
+
+// the affinity mask of the simulated process: the first `affinity` of `cores` CPUs
+static void fill_affinity(size_t size, cpu_set_t *mask)
+{
+  memset(mask, 0, size);
+  int n = g.affinity > 0 && g.affinity < g.cores ? g.affinity : g.cores;
+  for (int i = 0; i < n && (size_t)i < size * 8; i++)
+    CPU_SET_S(i, size, mask);
+}
+int sched_getaffinity(pid_t pid, size_t size, cpu_set_t *mask)
+{
+  if (!in_sim())
+    return real_sched_getaffinity()(pid, size, mask);
+  fill_affinity(size, mask);
+  return 0;
+}
+int pthread_getaffinity_np(pthread_t th, size_t size, cpu_set_t *mask)
+{
+  if (!in_sim())
+    return real_pthread_getaffinity_np()(th, size, mask);
+  fill_affinity(size, mask);
+  return 0;
 }
 
 }  // extern "C"
